@@ -120,6 +120,7 @@ class Hd:
         self.parent, self.pidx = parent, pidx   # view bookkeeping for the oracle
         self.sizes = sizes                      # residue sizes (M), [n] (R)
         self.nsp = nsp
+        self.species = None                     # which generated molecule type a molecule handle is an instance of
 
     @property
     def n(self):
@@ -133,6 +134,7 @@ def build_impl(world):
         mol = molgen.make_molecule(ms["name"], [tuple(a) for a in ms["atoms"]], np.array(ms["pos"]),
                                    [tuple(b) for b in ms["bonds"]])
         fam.append(Hd("M", mol, len(fam), len(fam), sizes=[len(g) for g in residue_groups(ms["atoms"])]))
+        fam[-1].species = ("m", len(fam) - 1)
     if world["system"]:
         sy = world["system"]
         recs = [r for inst in system_records(sy) for res in inst for r in res]
@@ -186,15 +188,6 @@ def observe(h, world, fam=None):
         vel = o.atoms_velocities
         get = (tuple(int(x) for x in o.resids), tuple(str(x) for x in o.resnames),
                tuple(int(x) for x in o.atoms_ids), vel is None, tuple(float(x) for x in o.geometric_center))
-        # the array getters must be the concatenation of what the atoms hold
-        flat = [a for res in gros for a in res]
-        ap = o.atoms_positions
-        if ap.shape != (len(flat), 3) or any(tuple(float(x) for x in ap[i]) != flat[i][4] for i in range(len(flat))):
-            raise AssertionError("atoms_positions is not the concatenation of the atoms' positions")
-        if vel is not None and any(tuple(float(x) for x in vel[i]) != flat[i][5] for i in range(len(flat))):
-            raise AssertionError("atoms_velocities is not the concatenation of the atoms' velocities")
-        if len(o) != len(flat):
-            raise AssertionError("len(molecule) differs from its number of atoms")
         return ((str(mt.name),), tuple(top_obs(t) for t in mt.atoms), gros, get, None)
     if h.kind == "S":
         names, tops = [], []
@@ -214,6 +207,31 @@ def exc_code(ex):
         if isinstance(ex, cls):
             return c
     return 9
+
+
+def typed(l, dt, one=False):
+    """the caller's argument in the requested python / numpy type (the VALUES are those of l)"""
+    if l is None:
+        return None
+    if dt in (None, "f8"):
+        a = np.array(l, dtype=float)
+        return a if one else a.reshape(-1, 3)
+    if dt in ("i8", "i4", "f4"):
+        a = np.array(l, dtype=float).astype({"i8": np.int64, "i4": np.int32, "f4": np.float32}[dt])
+        assert (a.astype(float) == np.array(l, dtype=float)).all(), "generated value not representable in " + dt
+        return a if one else a.reshape(-1, 3)
+    conv = (lambda x: int(x) if float(x).is_integer() else float(x))
+    if one:
+        vals = [conv(x) for x in l]
+        return vals if dt == "list" else tuple(vals)
+    rows = [[conv(x) for x in r] for r in l]
+    return rows if dt == "list" else tuple(tuple(r) for r in rows)
+
+
+def instance_residue_range(world, i):
+    sy = world["system"]
+    counts = [len(residue_groups(sy["species"][s]["atoms"])) for s in sy["instances"]]
+    return sum(counts[:i]), sum(counts[:i + 1])
 
 
 def gro_atoms(h):
@@ -258,7 +276,7 @@ def resolve(fam, op, bufs):
     return live
 
 
-def apply_op(fam, op, live=None):
+def apply_op(fam, op, live=None, world=None):
     """run one operation on the implementation.  Returns (exception code, new Hd or None)."""
     from gaddlemaps import Alignment
     live = live or {}
@@ -272,6 +290,19 @@ def apply_op(fam, op, live=None):
             new = Hd(h.kind, o.copy(), nroot, h.troot, sizes=h.sizes)
         elif k == "deep_copy":
             new = Hd("M", o.deep_copy(), nroot, nroot, sizes=h.sizes)
+        elif k == "copy_with":
+            src = fam[op["j"]]
+            if src.kind == "M":
+                res = src.obj.residues if op["mode"] == 0 else [r.copy() for r in src.obj.residues]
+            elif src.kind == "R":
+                res = [src.obj] if op["mode"] == 0 else [src.obj.copy()]
+            elif src.kind == "S":
+                a, b = instance_residue_range(world, op["i"])
+                res = src.obj.system_gro[a:b]
+            else:
+                raise TypeError("no residues to take from this handle")
+            x = o.deep_copy(res) if op["deep"] else o.copy(res)
+            new = Hd("M", x, nroot, nroot if op["deep"] else h.troot, sizes=[len(r) for r in x.residues])
         elif k == "align":
             al = Alignment(start=o) if op["side"] == "start" else Alignment(end=o)
             new = Hd("M", al.start if op["side"] == "start" else al.end, nroot, h.troot, sizes=h.sizes)
@@ -307,10 +338,10 @@ def apply_op(fam, op, live=None):
         elif k == "rotate":
             o.rotate(np.array(op["m"], dtype=float))
         elif k == "set_positions":
-            o.atoms_positions = live["arr"] if "arr" in live else np.array(op["l"], dtype=float).reshape(-1, 3)
+            o.atoms_positions = live["arr"] if "arr" in live else typed(op["l"], op.get("dt"))
         elif k == "set_velocities":
             o.atoms_velocities = (None if op["l"] is None else live["arr"] if "arr" in live
-                                  else np.array(op["l"], dtype=float).reshape(-1, 3))
+                                  else typed(op["l"], op.get("dt")))
         elif k == "set_ids":
             o.atoms_ids = list(op["l"])
         elif k == "set_resids_all":
@@ -324,9 +355,9 @@ def apply_op(fam, op, live=None):
         elif k == "set_molname":
             o.name = str(op["s"])
         elif k == "set_pos":
-            o.position = np.array(op["v"], dtype=float)
+            o.position = typed(op["v"], op.get("dt"), one=True)
         elif k == "set_vel":
-            o.velocity = None if op["v"] is None else np.array(op["v"], dtype=float)
+            o.velocity = typed(op["v"], op.get("dt"), one=True)
         elif k == "set_atomid":
             o.atomid = int(op["z"])
         elif k == "set_resid":
@@ -346,10 +377,17 @@ def apply_op(fam, op, live=None):
         raise
     except Exception as ex:  # noqa: BLE001 - the exception class is the observation
         return exc_code(ex), None
+    if new is not None and new.kind == "M":
+        if k == "handout":
+            new.species = ("s", world["system"]["instances"][op["i"]]) if world else None
+        elif k == "ali_set":
+            new.species = fam[op["j"]].species
+        else:
+            new.species = h.species
     return 0, new
 
 
-COPYLIKE = {"copy", "deep_copy", "align", "atoms", "handout", "ali_set"}
+COPYLIKE = {"copy", "deep_copy", "align", "atoms", "handout", "ali_set", "copy_with"}
 MUTATING = {"move", "move_to", "rotate", "set_positions", "set_velocities", "set_ids", "set_resids_all", "set_resids",
             "set_resnames_all", "set_resnames", "set_molname", "set_pos", "set_vel", "set_atomid", "set_resid",
             "set_top_resid", "set_resname", "set_name"}
@@ -378,6 +416,49 @@ def pick_buf(rs, bufs, n):
     if same and rs.randint(0, 3):
         return int(rs.choice(same))
     return max(list(bufs) + [-1]) + 1
+
+
+def world_of(fam):
+    return fam[0].world
+
+
+def arg_type(rs, op, key, kinds, scale):
+    """give the argument a python / numpy type other than a float64 ndarray; integer types get integer values,
+    float32 values that float32 holds exactly (float32 is used for velocities only: a body ALL of whose positions are
+    float32 would have its centre averaged in float32, seven digits, which no 1e-9 tolerance can be asked of)"""
+    dt = str(rs.choice(kinds))
+    op["dt"] = dt
+    one = key == "v"
+    shape = 3 if one else (len(op[key]), 3)
+    if dt in ("i8", "i4") or (dt in ("list", "tuple") and rs.randint(0, 2)):
+        vals = rs.randint(-scale, scale + 1, size=shape).astype(float)
+    elif dt == "f4":
+        vals = rs.randint(-8 * scale, 8 * scale + 1, size=shape) / 8.0
+    else:
+        return
+    op[key] = vals.tolist()
+
+
+def int_first_residue(rs, fam, hi):
+    """macro: integer-typed coordinates on ALL atoms of the first residue of a multi-residue molecule - through the
+    atom views or through the residue - followed by rigid operations on the whole molecule"""
+    h = fam[hi]
+    ops = []
+    nxt = len(fam)
+    if rs.randint(0, 2):
+        for k in range(h.sizes[0]):
+            ops.append({"h": hi, "op": "index" if rs.randint(0, 2) else "iter", "i": k})
+            ops.append({"h": nxt, "op": "set_pos", "v": [float(x) for x in rs.randint(-6, 7, size=3)],
+                        "dt": str(rs.choice(["i8", "i4", "list", "tuple"]))})
+            nxt += 1
+    else:
+        ops.append({"h": hi, "op": "resview", "i": 0})
+        ops.append({"h": nxt, "op": "set_positions", "dt": str(rs.choice(["i8", "i4"])),
+                    "l": rs.randint(-6, 7, size=(h.sizes[0], 3)).astype(float).tolist()})
+    ops.append({"h": hi, "op": "move", "v": rvec(rs, 5)})
+    ops.append({"h": hi, "op": "rotate", "m": rrot(rs)})
+    ops.append({"h": hi, "op": "move_to", "v": rvec(rs, 20)})
+    return ops
 
 
 def gen_op(rs, fam, bufs=None):
@@ -418,7 +499,9 @@ def gen_op(rs, fam, bufs=None):
         if h.kind == "M":
             w.update(set_resids_all=2, set_resids=2, set_resnames_all=0.6, set_resnames=0.8, set_molname=0.8)
             if not full:
-                w.update(deep_copy=4, align=2, iter=2, resview=3)
+                w.update(deep_copy=4, align=2, iter=2, resview=3, copy_with=3)
+            if not full and len(h.sizes) > 1 and len(fam) + h.sizes[0] + 1 < MAXFAM and rs.randint(0, 12) == 0:
+                return int_first_residue(rs, fam, hi)
         if h.kind == "R":
             w.update(set_resid=1.5, set_resname=0.8)
         if h.kind in "GA":
@@ -434,6 +517,21 @@ def gen_op(rs, fam, bufs=None):
         bad = rs.randint(0, 25) == 0     # an argument of the wrong length / an index out of range
         if k == "align":
             op["side"] = str(rs.choice(["start", "end"]))
+        elif k == "copy_with":
+            # residues supplied by another handle: mostly one of the same species
+            same = [j for j, x in enumerate(fam) if x.kind == "M" and x.species == h.species]
+            anyb = [j for j, x in enumerate(fam) if x.kind in "MR"]
+            syss = [j for j, x in enumerate(fam) if x.kind == "S"]
+            op.update(deep=bool(rs.randint(0, 2)), mode=int(rs.randint(0, 2)), i=0)
+            r = rs.randint(0, 10)
+            if r == 0 and syss and h.species and h.species[0] == "s":
+                sj = int(rs.choice(syss))
+                inst = [i for i, sp in enumerate(world_of(fam)["system"]["instances"]) if sp == h.species[1]]
+                op.update(j=sj, i=int(rs.choice(inst)))
+            elif r == 1:
+                op["j"] = int(rs.choice(anyb))
+            else:
+                op["j"] = int(rs.choice(same))
         elif k in ("atoms", "index", "iter"):
             op["i"] = int(n if bad else rs.randint(0, n))
         elif k == "resview":
@@ -453,10 +551,14 @@ def gen_op(rs, fam, bufs=None):
             op["l"] = [rvec(rs, 5) for _ in range(n + (1 if bad else 0))]
             if not bad and rs.randint(0, 5) < 2:
                 op["buf"] = pick_buf(rs, bufs, n)        # ONE ndarray object handed to several setters
+            elif rs.randint(0, 3) == 0:
+                arg_type(rs, op, "l", ["i8", "i4", "list", "tuple"], 6)
         elif k == "set_velocities":
             op["l"] = None if rs.randint(0, 4) == 0 else [rvec(rs, 2) for _ in range(n - (1 if bad and n > 1 else 0))]
             if not bad and op["l"] is not None and rs.randint(0, 4) == 0:
                 op["buf"] = pick_buf(rs, bufs, n)
+            elif op["l"] is not None and rs.randint(0, 3) == 0:
+                arg_type(rs, op, "l", ["i8", "i4", "f4", "list", "tuple"], 3)
         elif k == "set_ids":
             op["l"] = [int(x) for x in rs.randint(1, 100000, size=n + (1 if bad else 0))]
         elif k in ("set_resids_all", "set_resid", "set_top_resid", "set_atomid"):
@@ -473,8 +575,12 @@ def gen_op(rs, fam, bufs=None):
             op["s"] = rname(rs, 7 if h.kind == "R" else 5)
         elif k == "set_pos":
             op["v"] = rvec(rs, 5)
+            if rs.randint(0, 3) == 0:
+                arg_type(rs, op, "v", ["i8", "i4", "list", "tuple"], 6)
         elif k == "set_vel":
             op["v"] = None if rs.randint(0, 4) == 0 else rvec(rs, 2)
+            if op["v"] is not None and rs.randint(0, 3) == 0:
+                arg_type(rs, op, "v", ["i8", "i4", "f4", "list", "tuple"], 3)
         return op
     return {"h": 0, "op": "move", "v": [0.0, 0.0, 0.0]}
 
@@ -547,6 +653,21 @@ class Oracle:
                 if np.abs(gc - P.mean(axis=0)).max() > TOL:
                     self.bad.append("step %d (%s on handle %d): geometric_center of handle %d is %.3g away from the mean of "
                                     "its atoms_positions" % (step, k, op["h"], j, np.abs(gc - P.mean(axis=0)).max()))
+            # ... and what a molecule reports is what its atoms hold (a write through a view shows in the molecule)
+            if y.kind == "M":
+                ags = gro_atoms(y)
+                ap = np.array(y.obj.atoms_positions)
+                held = np.array([[float(x) for x in a.position] for a in ags])
+                if ap.shape != held.shape or not np.array_equal(ap.astype(float), held):
+                    self.bad.append("step %d (%s on handle %d): atoms_positions of molecule %d differs from the positions its "
+                                    "atoms hold by %.3g" % (step, k, op["h"], j,
+                                                            np.abs(ap.astype(float) - held).max() if ap.shape == held.shape else -1))
+                av = y.obj.atoms_velocities
+                if av is not None:
+                    heldv = np.array([[float(x) for x in a.velocity] for a in ags])
+                    if not np.array_equal(np.array(av).astype(float), heldv):
+                        self.bad.append("step %d (%s on handle %d): atoms_velocities of molecule %d differs from the velocities "
+                                        "its atoms hold" % (step, k, op["h"], j))
         for j, y in enumerate(fam[:len(self.before)]):
             if y.kind in "SL":
                 continue
@@ -638,6 +759,10 @@ def op_term(fam_kinds, op):
         return "OCopy"
     if k == "deep_copy":
         return "ODeepCopy"
+    if k == "copy_with":
+        return "(OCopyWith %s %s %s %s)" % ("true" if op["deep"] else "false", nat(op["mode"]), nat(op["j"]), nat(op["i"]))
+    if k in ("set_positions", "set_velocities") and op.get("dt") in ("list", "tuple") and op.get("l") is not None:
+        return "OBadArg"     # a list / tuple has no .shape: the whole-body setters raise before writing anything
     if k == "align":
         return "OAlign"
     if k == "atoms":
@@ -751,20 +876,30 @@ def run_case(world, ops=None, rs=None, nops=0, want_terms=True):
     bufs = {}
     assumed = []
     total = len(ops) if ops is not None else nops
+    fam[0].world = world
+    pending = []
     for s in range(total):
-        op = ops[s] if ops is not None else gen_op(rs, fam, bufs)
-        if op["h"] >= len(fam):
-            break
+        if ops is not None:
+            op = ops[s]
+        else:
+            if not pending:
+                g = gen_op(rs, fam, bufs)
+                pending = list(g) if isinstance(g, list) else [g]
+            op = pending.pop(0)
+        if op["h"] >= len(fam) or ("j" in op and op["j"] is not None and op["j"] >= len(fam)):
+            continue
         op = dict(op)
         live = resolve(fam, op, bufs)
         done.append(op)
         hist[op["op"]] = hist.get(op["op"], 0) + 1
+        if op.get("dt"):
+            hist["arg_" + op["dt"]] = hist.get("arg_" + op["dt"], 0) + 1
         if "arr" in live:
             hist["shared_array"] = hist.get("shared_array", 0) + 1
         if "v" in live:
             hist["live_displacement"] = hist.get("live_displacement", 0) + 1
         orc.pre(fam, op)
-        code, new = apply_op(fam, op, live)
+        code, new = apply_op(fam, op, live, world)
         for b, (arr, at_creation) in bufs.items():
             if arr.tobytes() != at_creation and not any(a[0] == b for a in assumed):
                 assumed.append((b, s + 1))
@@ -888,6 +1023,34 @@ def corpus_cases():
         {"h": 0, "op": "move_to", "v": [0.0, 0.0, 0.0], "src": {"kind": "center"}},
         {"h": 1, "op": "move_to", "v": [0.0, 0.0, 0.0], "src": {"kind": "atom", "k": 0}}]
 
+    # witness of seeded change C18-5: copy(new_residues) / deep_copy(new_residues) must copy the residues they are given
+    yield "copy_with_supplied_residues", w, [
+        {"h": 0, "op": "deep_copy"}, {"h": 1, "op": "move", "v": [1.0, 2.0, 3.0]}, {"h": 1, "op": "rotate", "m": rot},
+        {"h": 0, "op": "copy_with", "deep": False, "mode": 0, "j": 1, "i": 0},                      # h2 = h0.copy(h1.residues)
+        {"h": 2, "op": "move", "v": [1.0, 0.0, 0.0]}, {"h": 2, "op": "rotate", "m": rot}, {"h": 2, "op": "move_to", "v": [4.0, 4.0, 4.0]},
+        {"h": 2, "op": "set_ids", "l": [9, 8, 7, 6, 5]}, {"h": 2, "op": "set_velocities", "l": [[1.0, 0.0, 0.0]] * 5},
+        {"h": 2, "op": "set_resids", "l": [11, 12]}, {"h": 2, "op": "index", "i": 1}, {"h": 3, "op": "set_pos", "v": [8.0, 8.0, 8.0]},
+        {"h": 1, "op": "move", "v": [0.0, -2.0, 0.0]}, {"h": 1, "op": "set_ids", "l": [1, 2, 3, 4, 5]},
+        {"h": 0, "op": "copy_with", "deep": True, "mode": 0, "j": 1, "i": 0},                       # h4 = h0.deep_copy(h1.residues)
+        {"h": 4, "op": "move_to", "v": [0.0, 0.0, 0.0]}, {"h": 4, "op": "set_velocities", "l": None}, {"h": 1, "op": "rotate", "m": rot},
+        {"h": 0, "op": "copy_with", "deep": False, "mode": 0, "j": 0, "i": 0},                      # h5 = h0.copy(h0.residues)
+        {"h": 5, "op": "move", "v": [3.0, 0.0, 0.0]}, {"h": 0, "op": "move", "v": [0.0, 3.0, 0.0]},
+        {"h": 0, "op": "copy_with", "deep": False, "mode": 1, "j": 1, "i": 0}, {"h": 6, "op": "move", "v": [1.0, 1.0, 1.0]},
+        {"h": 1, "op": "resview", "i": 0}, {"h": 0, "op": "copy_with", "deep": False, "mode": 0, "j": 7, "i": 0}]   # residues of another shape: IOError
+    # witness of seeded change C18-6: integer-typed coordinates on every atom of the FIRST residue, floats elsewhere
+    yield "integer_coordinates_on_first_residue", w, [
+        {"h": 0, "op": "move", "v": [0.25, 0.5, 0.125]},
+        {"h": 0, "op": "index", "i": 0}, {"h": 1, "op": "set_pos", "v": [2.0, 4.0, 5.0], "dt": "i8"},
+        {"h": 0, "op": "iter", "i": 1}, {"h": 2, "op": "set_pos", "v": [3.0, 4.0, 5.0], "dt": "i4"},
+        {"h": 0, "op": "move", "v": [0.3, -0.7, 1.1]}, {"h": 0, "op": "rotate", "m": rot}, {"h": 0, "op": "move_to", "v": [1.5, 2.5, 3.5]},
+        {"h": 0, "op": "resview", "i": 0}, {"h": 3, "op": "set_positions", "l": [[0.0, 0.0, 0.0], [1.0, 0.0, 0.0]], "dt": "i8"},
+        {"h": 0, "op": "set_velocities", "l": [[0.5, 0.25, 0.125]] * 5, "dt": "f4"}, {"h": 3, "op": "set_velocities", "l": [[1.0, 2.0, 3.0]] * 2, "dt": "i4"},
+        {"h": 0, "op": "rotate", "m": rot}, {"h": 0, "op": "move", "v": [0.1, 0.2, 0.3]},
+        {"h": 1, "op": "set_pos", "v": [1.0, 1.0, 1.0], "dt": "list"}, {"h": 2, "op": "set_pos", "v": [2.0, 1.0, 1.0], "dt": "tuple"},
+        {"h": 0, "op": "move_to", "v": [0.0, 0.0, 0.0]}, {"h": 0, "op": "set_positions", "l": [[1.0, 2.0, 3.0]] * 5, "dt": "list"},
+        {"h": 0, "op": "set_positions", "l": [[1.0, 0.0, 0.0], [2.0, 0.0, 0.0], [2.0, 1.0, 0.0], [2.0, 1.0, 1.0], [3.0, 1.0, 1.0]], "dt": "i8"},
+        {"h": 0, "op": "copy"}, {"h": 4, "op": "rotate", "m": rot}]
+
 
 # ------------------------------------------------------------------ check entry points
 MAXREPORT = 6
@@ -959,8 +1122,13 @@ def correspondence(ctx):
     ctx.sample({"world": meta[0]["world"], "ops": meta[0]["ops"][:6]})
     ctx.sample({"ops": meta[-1]["ops"][:8]})
     K = ctx.cov["K"]
-    shard = max(1, (len(cases) + 15) // 16)
+    # small shards keep the memory of one coqc low (a case is up to ~0.5 MB of terms); a shard killed by the
+    # machine (memory pressure from concurrent builds) is not a verdict: retry once with fewer processes
+    shard = max(1, (len(cases) + 47) // 48)
     codes, log = lib.run_coq_cases(ctx.cid, "K", HEADER, cases, shard=shard)
+    if codes is None and ("Killed" in log or "TIMEOUT" in log or "Out of memory" in log):
+        K["retried_after"] = log[-300:]
+        codes, log = lib.run_coq_cases(ctx.cid, "K", HEADER, cases, shard=shard, jobs=4, timeout=1800)
     K["cases"] = len(cases)
     K["operations"] = sum(len(m["ops"]) for m in meta)
     K["input_distribution"] = {"operations": hist, "sequence_lengths": lens}
